@@ -56,9 +56,9 @@ func ByCountry(cc string) *Scheme {
 // ---------------------------------------------------------------------------
 // digit helpers
 
-func isDigit(c byte) bool  { return c >= '0' && c <= '9' }
-func isUpper(c byte) bool  { return c >= 'A' && c <= 'Z' }
-func isAlnum(c byte) bool  { return isDigit(c) || isUpper(c) }
+func isDigit(c byte) bool { return c >= '0' && c <= '9' }
+func isUpper(c byte) bool { return c >= 'A' && c <= 'Z' }
+func isAlnum(c byte) bool { return isDigit(c) || isUpper(c) }
 func allDigits(s string) bool {
 	if s == "" {
 		return false
